@@ -5,6 +5,7 @@ package main
 // operation every observer is compared with the reference state's observer outputs. Plumbing only.
 
 import (
+	"time"
 	"bytes"
 	"encoding/json"
 	"errors"
@@ -563,7 +564,15 @@ func init() {
 						}
 					}(g)
 				}
-				wg.Wait()
+				done := make(chan struct{})
+				go func() { wg.Wait(); close(done) }()
+				select {
+				case <-done:
+				case <-time.After(60 * time.Second):
+					// 300 calls per goroutine take milliseconds: the goroutines block each other for good
+					fmt.Fprintf(os.Stderr, "@@HANG {\"kind\": %q, \"round\": %d, \"goroutines\": %d, \"calls_done\": %d}\n", kind, round, ng, atomic.LoadInt64(&total))
+					os.Exit(67)
+				}
 			}
 		}
 		fmt.Fprintf(os.Stderr, "@@SUMMARY {\"calls\": %d}\n", total)
